@@ -134,9 +134,12 @@ def execute(case, t):
 SUBCHECKS = [
     SubCheck(name="loop_trace_invariants_long_series", strategy=gen.e2e_long_config, execute=execute,
              budget={"quick": 15, "thorough": 300}, shards={"quick": 3, "thorough": 16}, modes=E2E_MODES),
+    SubCheck(name="loop_trace_invariants_tiny_cluster_large_min_size", strategy=gen.e2e_tiny_cluster_large_m_config, execute=execute,
+             budget={"quick": 48, "thorough": 2000}, shards={"quick": 8, "thorough": 16}, modes=E2E_MODES),
     SubCheck(name="loop_trace_invariants_oscillating_runs", strategy=gen.e2e_oscillating_config, execute=execute,
              budget={"quick": 160, "thorough": 6000}, shards={"quick": 16, "thorough": 16}, modes=E2E_MODES),
-    SubCheck(name="loop_trace_invariants", strategy=lambda: gen.e2e_config(betas=(0.0, 0.5, 2.0, 10.0, 50.0, 400.0)), execute=execute,
+    SubCheck(name="loop_trace_invariants", strategy=lambda: gen.e2e_config(betas=(0.0, 0.5, 2.0, 10.0, 50.0, 400.0), scales=True, scale_prob=0.25,
+                                                                           offsets=(0.0, 0.0, 0.0, 1e4), m_large=True), execute=execute,
              budget={"quick": 160, "thorough": 4000}, shards={"quick": 16, "thorough": 8}, modes=E2E_MODES,
              min_nontrivial_fraction=0.3),
 ]
